@@ -15,6 +15,7 @@
 package main
 
 import (
+	"encoding/json"
 	"fmt"
 	"os"
 	"reflect"
@@ -29,10 +30,26 @@ import (
 	"verifharness/common"
 )
 
+var replayLine string
+
 func main() {
 	c02oracle.MaybeChild()
 	ctx := common.ParseFlags("C05")
 	only := os.Getenv("C05_ONLY") // development: heap | isolation | update
+	if ctx.Replay != "" {
+		// a replay file of the heap stream carries the protocol line; replays of the program oracles are
+		// re-found by their stable key in a normal run (their generators are deterministic in the seed)
+		if b, err := os.ReadFile(ctx.Replay); err == nil {
+			var f struct {
+				Replay map[string]any `json:"replay"`
+			}
+			if json.Unmarshal(b, &f) == nil {
+				if l, ok := f.Replay["line"].(string); ok {
+					replayLine, only = l, "heap"
+				}
+			}
+		}
+	}
 	if only == "" || only == "heap" {
 		heapStream(ctx)
 	}
@@ -505,7 +522,10 @@ func heapStream(ctx *common.Ctx) {
 		"random operation sequences (1–9 ops: _setpath, setpath, allocator getpath with release, plain getpath creating aliases, _delpaths, delpaths, new allocator; payloads: fresh literals, registers, [r,r], {x:r}) on random nested values with explicit capacities; distinct = distinct implementation answers")
 	orc := ctx.NewOracle("heap-writes", "model-free: in every operation of the heap stream, a pre-existing container whose shallow content (full backing array) changed must have been registered in the allocator passed to the native; setpath/delpaths without allocator must change nothing that existed; distinct = operations that wrote at least one pre-existing container in place")
 	var lines, impl []string
-	n := ctx.N(6000, 120000)
+	n := ctx.N(6000, 40000)
+	if replayLine != "" {
+		n = 0
+	}
 	for i := 0; i < n; i++ {
 		// the generator follows the real value so that paths go deep: run the prefix on the real side
 		toks := append([]string{"V"}, genContainerLit(r)...)
@@ -583,6 +603,14 @@ func heapStream(ctx *common.Ctx) {
 			ctx.Violate("written-unowned:"+line, "a native changed a pre-existing container that was not registered in its allocator: "+u,
 				map[string]any{"line": line, "observed": ans, "what": u,
 					"how": "cd /verif/harness && go run -tags verif ./cmd/c05 -replay <file>  (re-executes the line on the real natives)"})
+		}
+	}
+	if replayLine != "" {
+		// -replay of a heap-stream violation / disagreement: that line only
+		ans, _, unowned := exec(replayLine, nat)
+		lines, impl = []string{replayLine}, []string{ans}
+		for _, u := range unowned {
+			ctx.Violate("written-unowned:"+replayLine, u, map[string]any{"line": replayLine, "observed": ans})
 		}
 	}
 	orc.Samples = []string{lines[0], lines[len(lines)/2]}
